@@ -2,6 +2,7 @@
 from __future__ import annotations
 
 import ast
+import re
 from typing import Dict, List, Optional, Tuple
 
 from sa.core.common import AnalysisError
@@ -1409,3 +1410,56 @@ def check_template_balance(col, rule: str):
                 f"{kind} template {why or 'balances'}: an unbalanced template renders a package that cannot be built", rel)
     if n < 12:
         raise AnalysisError(f"{rule}: only {n} structured templates found (12 confirmed by hand)")
+
+
+def cast_exactly_on_type_mismatch(emit_fn: ast.AST) -> Tuple[bool, str]:
+    """C02.R7 / C13.R6, stated on what `add_line` finally receives along each path (however the text is assembled: two calls in an if/else,
+    a local extended or chosen first, a helper that E-INLINE put back): the emitted text contains `static_cast<T>(..)` exactly on the paths
+    on which all of `<target type> is not None`, `<value>.has_cpp_type()` and `<target type>.type != <value>.cpp_type().type` are known to
+    hold, and T is that same `<target type>.type`."""
+    from sa.core.paths import substituted_paths
+    seen_cast = seen_plain = 0
+    for items in substituted_paths(emit_fn):
+        lines = [c for k, c, *_ in items if k == "call" and call_name(c) == "add_line"]
+        if any(k == "raise" for k, *_ in items):
+            continue
+        if len(lines) != 1:
+            return False, f"a path emits {len(lines)} lines"
+        text = src(lines[0].args[0]) if lines[0].args else ""
+        atoms_true = set()
+        atoms_false = []
+        for it in items:
+            if it[0] != "cond":
+                continue
+            t, tr = it[1], it[2]
+            conj = t.values if isinstance(t, ast.BoolOp) and isinstance(t.op, ast.And) else [t]
+            if tr:
+                for a in conj:
+                    atoms_true.add(src(a))
+            else:
+                atoms_false.append([src(a) for a in conj])
+        mism = [a for a in atoms_true if re.fullmatch(r"(.+)\.type != (.+)\.cpp_type\(\)\.type", a)]
+        full = False
+        for a in mism:
+            m = re.fullmatch(r"(.+)\.type != (.+)\.cpp_type\(\)\.type", a)
+            tt, val = m.group(1), m.group(2)
+            known = f"{tt} is not None" in atoms_true or (tt.endswith(".cpp_type()") and f"{tt[:-len('.cpp_type()')]}.has_cpp_type()" in atoms_true)
+            if known and f"{val}.has_cpp_type()" in atoms_true:
+                full = True
+                if "static_cast<" in text and f"static_cast<{{{tt}.type}}>({{{val}.as_cpp()}})" not in text.replace(" ", ""):
+                    return False, f"the cast is not static_cast<{tt}.type>({val}.as_cpp()): {text[:90]}"
+        # `A is not None` may be spelled through positive(): accept `A is None` known false
+        if not full:
+            for a in atoms_true:
+                m = re.fullmatch(r"(.+)\.type != (.+)\.cpp_type\(\)\.type", a)
+                if m and f"{m.group(2)}.has_cpp_type()" in atoms_true and any(f == [f"{m.group(1)} is None"] for f in atoms_false):
+                    full = True
+        has_cast = "static_cast<" in text
+        if has_cast != full:
+            return False, ("a cast is emitted on a path where the three conditions are not all established" if has_cast
+                           else "no cast on the path where both types are known and differ") + f": {text[:80]}"
+        seen_cast += has_cast
+        seen_plain += (not has_cast)
+    if not seen_cast or not seen_plain:
+        return False, f"paths with a cast: {seen_cast}, without: {seen_plain}"
+    return True, "cast exactly when both types are known and differ"
